@@ -980,3 +980,18 @@ func Unwrap(o Op) Op {
 	}
 	return o
 }
+
+// ---- a statement that must fail for a reason outside the model ------------------------------------------
+
+// RawFail is program text the documented rules refuse whatever the tables hold (e.g. a table named twice in one
+// FROM clause). It changes nothing.
+type RawFail struct {
+	Id, Text, Cls string
+	Tabs          []string
+}
+
+func (r *RawFail) ID() string             { return r.Id }
+func (r *RawFail) Class() string          { return r.Cls }
+func (r *RawFail) SQL() string            { return r.Text }
+func (r *RawFail) Tables() []string       { return r.Tabs }
+func (r *RawFail) Apply(s *State) Outcome { return fail(ErrRefused) }
